@@ -246,3 +246,70 @@ def rectangle_grid_rejects(S):
     nr, nc = S.choice("nr", [0, -1, 1]), S.choice("nc", [0, 2])
     out = S.call(r.rectangle_grid, nr, nc)
     S.ensure("rectangle_grid.rejects_nonpositive_counts", siff(out.raised(AssertionError), nr <= 0 or nc <= 0))
+
+
+OPS_AFTER_MOVE = ["bounding_box", "area", "area_overlap", "overlap", "is_inside", "point_inside", "touches", "mul", "split",
+                  "x_cuttable"]
+
+
+@contract(P, functions=[G + "bounding_box", G + "area_overlap", G + "point_inside", G + "is_inside", G + "touches",
+                        G + "__mul__", G + "split", G + "x_cuttable", G + "area", G + "overlap"],
+          params=[dict(op=o, how=h) for o in OPS_AFTER_MOVE
+                  for h in ("center_inplace", "center_assign", "shape_inplace", "shape_assign")],
+          note="rectangles are mutable (the library moves them in place: Module.recenter_rectangles, flipping): every "
+               "operation must be a function of the CURRENT centre and shape, whatever was computed before")
+def operations_follow_inplace_moves(S, op, how):
+    E, EA = set_eps(S)
+    a, b = mk_rect(S, "a"), mk_rect(S, "b")
+    dx, dy = S.real("dx"), S.real("dy")
+    w2, h2 = S.real("w2", pos=True), S.real("h2", pos=True)
+    calls = {"bounding_box": lambda: a.bounding_box, "area": lambda: a.area, "area_overlap": lambda: (a.area_overlap(b), b.area_overlap(a)),
+             "overlap": lambda: a.overlap(b), "is_inside": lambda: a.is_inside(b), "point_inside": lambda: a.point_inside(b.center),
+             "touches": lambda: a.touches(b), "mul": lambda: a * b, "split": lambda: a.split(),
+             "x_cuttable": lambda: a.x_cuttable(b.center.x)}
+    # use the operation (and the bounding box) once: any internal cache is now warm
+    S.call(lambda: a.bounding_box)
+    S.call(calls[op])
+    if how == "center_inplace":
+        a.center.x += dx
+        a.center.y += dy
+    elif how == "center_assign":
+        a.center = Point(a.center.x + dx, a.center.y + dy)
+    elif how == "shape_inplace":
+        a.shape.w = w2
+        a.shape.h = h2
+    else:
+        a.shape = Shape(w2, h2)
+    A, B = box(a), box(b)
+    o = S.call(calls[op])
+    nm = "after_move." + op
+    if not o.ok:
+        S.ensure(nm, False)
+        return
+    v = o.value
+    if op == "bounding_box":
+        S.ensure(nm, sand(seq(v.ll.x, A[0]), seq(v.ll.y, A[1]), seq(v.ur.x, A[2]), seq(v.ur.y, A[3])))
+    elif op == "area":
+        S.ensure(nm, seq(v, a.shape.w * a.shape.h))
+    elif op == "area_overlap":
+        S.ensure(nm, sand(seq(v[0], box_ovl(A, B)), seq(v[1], box_ovl(A, B))))
+    elif op == "overlap":
+        S.ensure(nm, siff(v, box_ovl(A, B) > EA))
+    elif op == "is_inside":
+        S.ensure(nm, siff(v, box_inside(A, B)))
+    elif op == "point_inside":
+        S.ensure(nm, siff(v, sand(A[0] <= b.center.x, b.center.x <= A[2], A[1] <= b.center.y, b.center.y <= A[3])))
+    elif op == "touches":
+        S.ensure(nm, siff(v, sand(smax(A[0] - B[2], B[0] - A[2]) <= E, smax(A[1] - B[3], B[1] - A[3]) <= E)))
+    elif op == "mul":
+        if v is not None:
+            inter = (smax(A[0], B[0]), smax(A[1], B[1]), smin(A[2], B[2]), smin(A[3], B[3]))
+            S.ensure(nm, box_eq(box(v), inter))
+        else:
+            S.ensure(nm, box_ovl(A, B) <= 0)
+    elif op == "split":
+        B1, B2 = box(v[0]), box(v[1])
+        S.ensure(nm, sand(interiors_disjoint(B1, B2), box_inside(B1, A), box_inside(B2, A),
+                          seq(box_area(B1) + box_area(B2), box_area(A))))
+    elif op == "x_cuttable":
+        S.ensure(nm, simplies(v, sand(A[0] < b.center.x, b.center.x < A[2])))
